@@ -38,7 +38,7 @@ T = {
          "held for the explored open/write/close scripts and every swept kill position: peer callbacks equal the opener's calls, once, in order, boundaries preserved",
          "Noise stand-in (spec-conformant NNpsk0), SimNet fidelity", "3/C10"),
  "C11": ("exploration", "runtime monitoring: per-step state probes (roles, selected connections) + convergence-in-virtual-time oracle under link loss / blackhole / timing variation",
-         "held on explored schedules: roles complementary, at most one selected live connection per side, follower only on leader-selected link, re-convergence within the drain bound",
+         "held on explored schedules: roles complementary, at most one selected live connection per side, follower only on leader-selected link, re-convergence within the drain bound (also with an application streaming into a silently dead link)",
          "Noise stand-in; state probes read anchored private state between steps", "3/C11"),
  "C12": ("exploration", "runtime monitoring: codec round-trip oracle on real _Framer/_Record with the Noise stand-in under all fragmentations + rejection oracle under attacks on a live listener",
          "held for generated records (all 7 types, boundary sizes) and chunkings; unkeyed/corrupt input dropped with nothing surfaced, except the recorded finding: a multi-Noise-message frame re-framed at a message boundary (known_findings.json)",
@@ -50,7 +50,7 @@ T = {
          "held on explored programs/schedules; evidence lists distinct (machine,state,input) pairs exercised",
          "scope: every automat machine of the client incl. Dilation when dilate() is called (no subchannel traffic); tls late-delivery labelled", "3/C14"),
  "C15": ("exploration", "runtime monitoring: recording producers + transport probes between scheduler steps under tiny send buffers, random (un)registration and link replacement",
-         "held on explored schedules: all producers paused while blocked, all resumed after drain, inbound pause iff some live subchannel paused",
+         "held on explored schedules: all producers paused while blocked, all resumed after drain, inbound pause iff some live subchannel paused, no record delivered to a subchannel that paused on the same connection; recorded finding: records a replacement connection had parked before the pause are still delivered (known_findings.json)",
          "Noise stand-in; probes of Outbound/Inbound state between steps", "3/C15"),
  "C16": ("exploration", "runtime monitoring: virtual-time oracle on ping/pong/drop events for responsive, slow and silent (blackholed) peers over many ping intervals",
          "held on explored intervals/latencies: silent peer dropped < 3 intervals after last answered ping, responsive peer never dropped, monitoring stops/resumes with the connection; recorded finding: the Leader drops a responsive peer while its own application has paused reading",
